@@ -154,7 +154,7 @@ PROPS = {
     'C13': dict(
         quick_grids=['dom.seq1_atomic', 'dom.attr_seq1'],
         standin_ops=['dom.seq_atomic', 'dom.attr_seq', 'dom.tree_atomic', 'dom.children_after_edits', 'dom.attr_owner', 'dom.factory', 'dom.text.insert_data', 'dom.text.delete_data', 'dom.text.replace_data', 'dom.text.append_data', 'dom.text.set_data', 'dom.comment.insert_data', 'dom.comment.delete_data', 'dom.comment.replace_data', 'dom.comment.append_data', 'dom.comment.set_data', 'dom.cdata.insert_data', 'dom.cdata.delete_data', 'dom.cdata.replace_data', 'dom.cdata.append_data', 'dom.cdata.set_data'],
-        verus_units=['c16_chardata', 'c13_tree', 'c13_convert', 'c13_attrs'],
+        verus_units=['c16_chardata', 'c13_tree', 'c13_convert', 'c13_attrs', 'c13_domtree'],
         level='proof',
         trusted_base=TRUSTED_VERUS,
         assumptions=[A1, A2, A3, A4, A6, A8, 'c13_tree: the per-type primitives insert_by_id / delete_by_id / child_index / child_by_index / last_child_or_self_id are assumed callees (insert_by_id: hierarchy and type checks first, a refusal changes nothing); the item and the receiver share one document order vector'],
